@@ -799,6 +799,8 @@ class CompositeEnvelope:
             state_objs.extend(ce.state_objs)
             if ce_container is None:
                 ce_container = CompositeEnvelope._containers[ce.uid]
+                # Registered right away: handles renamed below resolve through it
+                CompositeEnvelope._containers[self.uid] = ce_container
             elif CompositeEnvelope._containers[ce.uid] is not ce_container:
                 ce_container.append_states(CompositeEnvelope._containers[ce.uid])
             # Every handle of the merged container has to follow, not only the one given
